@@ -402,3 +402,128 @@ Proof. exact Proofs.ChannelMore.x_done_implies_cancelled. Qed.
 Print Assumptions C12_channel_split_done_implies_cancelled.
 
 End ChannelCloseClauses.
+
+(* C12 (part: shutdown protocol) — Close and context cancellation at lock-operation granularity: everything terminates,
+   nothing is left running, the lock order is respected.
+   Model: Model/ShutdownProto.v — one Buffer (b.mutex as an RWMutex with pending writers, b.cond as a notify list,
+   b.ctx), one consumer (c.mutex, c.cond, c.ctx, its watcher goroutine), and the threads Buffer.Close, consumer.Close
+   (explicit and by the watcher, through sync.Once), Get with its getAsync goroutine, WaitCond's watcher and
+   CombineContext's AfterFunc, Diff, Commit/Rollback (the proviso: forced while reads are uncommitted), Put, a canceller.
+   One step = one lock/unlock, cond.Wait sub-operation, Broadcast, cancel, channel operation.
+   [Proofs.ShutdownProto.reachable_upto k s]: s is reachable, by the code as written ([faithful]), under some schedule,
+   from an initial configuration (open buffer, open registered consumer, uncommitted reads or not, a value waiting or
+   not, a canceller or not) in which the program makes at most k of the four optional calls Get, Diff, Put,
+   consumer.Close — each at most once, at any moment; Buffer.Close may be called at any moment too.
+   [quiescent]: nothing can move unless the program makes a new call.  Statements only. *)
+From Coq Require Import NArith.
+From BB.Model Require ShutdownProto.
+From BB.Proofs Require ShutdownProto.
+
+Section ShutdownProtocol.
+Import BB.Model.ShutdownProto.
+Import BB.Model.ShutdownProto.
+
+(* what [reachable_upto] contains: every state on every schedule from every such initial configuration *)
+Theorem C12_reachable_upto_meaning : forall k off0 avail0 uc ng0 nd0 np0 ncc0 sched,
+  ng0 <= 1 -> nd0 <= 1 -> np0 <= 1 -> ncc0 <= 1 -> ng0 + nd0 + np0 + ncc0 <= k ->
+  Proofs.ShutdownProto.reachable_upto k (run faithful (init off0 avail0 uc ng0 nd0 np0 ncc0) sched).
+Proof. exact Proofs.ShutdownProto.reachable_upto_intro. Qed.
+Print Assumptions C12_reachable_upto_meaning.
+
+(* Closing the Buffer completes, whatever it races with: in every quiescent state in which Buffer.Close has been called
+   it has returned, b.done is closed, the consumer is deregistered with its done channel closed and its watcher goroutine
+   ended, the getAsync goroutine, WaitCond's watcher and CombineContext's registration are gone, every lock is free,
+   every other call has returned and nothing is uncommitted.  (No deadlock, no goroutine left.) *)
+Theorem C12_shutdown_completes : forall s, Proofs.ShutdownProto.reachable_upto 2 s ->
+  quiescent faithful s = true -> bclose_called s = true ->
+  bclose_returned s = true /\ bdone s = true /\ bcan s = true /\
+  consumer_closed s = true /\ get_goroutines_gone s = true /\ locks_free s = true /\
+  (get_called s = true -> get_returned s = true) /\
+  (cclose_called s = true -> cclose_returned s = true) /\
+  others_idle s = true /\ pt s = PIdle.
+Proof. exact Proofs.ShutdownProto.shutdown_completes2. Qed.
+Print Assumptions C12_shutdown_completes.
+
+(* Closing the consumer (explicitly, or by cancellation of its context through its watcher) completes: once c.ctx is
+   cancelled every quiescent state has the consumer completely closed; an explicit Close has returned unless it is
+   queued on c.mutex behind a legitimately blocked Get (the proviso of the property). *)
+Theorem C12_consumer_close_completes : forall s, Proofs.ShutdownProto.reachable_upto 2 s ->
+  quiescent faithful s = true ->
+  (ccan s = true -> consumer_closed s = true /\ (cclose_called s = true -> cclose_returned s = true)) /\
+  (cclose_called s = true -> get_parked s = false -> cclose_returned s = true /\ consumer_closed s = true).
+Proof. exact Proofs.ShutdownProto.consumer_close_completes2. Qed.
+Print Assumptions C12_consumer_close_completes.
+
+(* ... and that proviso is real: a consumer.Close() called while Get is parked waits on c.mutex, nothing is cancelled *)
+Theorem C12_consumer_close_queues_behind_parked_get :
+  exists sched, let s := run faithful (init false false false 1 0 0 1) sched in
+    quiescent faithful s = true /\ get_parked s = true /\ cclose_called s = true /\ cclose_returned s = false /\
+    cl s = ClLockC /\ cm s = CG /\ ccan s = false.
+Proof. exact Proofs.ShutdownProto.consumer_close_queues_behind_parked_get. Qed.
+Print Assumptions C12_consumer_close_queues_behind_parked_get.
+
+(* It cannot take for ever: every step decreases a measure, so every schedule from a reachable state makes at most
+   mu moves (at most 172 from any initial configuration), and every schedule prefix extends to a terminal state. *)
+Theorem C12_every_schedule_bounded : forall s sched, Proofs.ShutdownProto.reachable_upto 2 s ->
+  moves faithful s sched <= N.to_nat (mu s).
+Proof. exact Proofs.ShutdownProto.every_schedule_bounded2. Qed.
+Print Assumptions C12_every_schedule_bounded.
+
+Theorem C12_reaches_terminal : forall s, Proofs.ShutdownProto.reachable_upto 2 s ->
+  exists post, is_terminal faithful (run faithful s post) = true.
+Proof. exact Proofs.ShutdownProto.reaches_terminal2. Qed.
+Print Assumptions C12_reaches_terminal.
+
+(* Safety of the order of events: b.done closes only after b.ctx is cancelled and the consumer deregistered; c.done only
+   after deregistration and cancellation; a deregistered consumer has nothing uncommitted, so Commit never meets "unknown
+   consumer" with reads outstanding; an explicit Close gets the "only once" error only after the watcher's Close. *)
+Theorem C12_done_channels_meaning : forall s, Proofs.ShutdownProto.reachable_upto 2 s ->
+  (bdone s = true -> bcan s = true /\ reg s = false) /\
+  (cdone s = true -> reg s = false /\ ccan s = true) /\
+  (reg s = false -> off s = false /\ ccan s = true) /\
+  cr s <> CRBUnlockE /\
+  (ccres s = RErr -> cw s = CWExit).
+Proof. exact Proofs.ShutdownProto.done_channels_meaning2. Qed.
+Print Assumptions C12_done_channels_meaning.
+
+(* Lock order: nobody ever stands at a c.mutex.Lock() holding b.mutex in either mode, so no lock-order cycle exists;
+   the mutexes are exclusive. *)
+Theorem C12_lock_order_respected : forall s, Proofs.ShutdownProto.reachable_upto 2 s ->
+  takes_c_under_b s = false /\ lock_cycle s = false /\ locks_consistent s = true.
+Proof. exact Proofs.ShutdownProto.lock_order_respected2. Qed.
+Print Assumptions C12_lock_order_respected.
+
+(* sensitivity, same step function: Diff locking the buffer first deadlocks against Commit ... *)
+Theorem C12_diff_lock_order_refuted :
+  exists sched, let s := run Proofs.ShutdownProto.var_diff_inverted (init true false false 0 1 0 0) sched in
+    quiescent Proofs.ShutdownProto.var_diff_inverted s = true /\ lock_cycle s = true /\
+    df s = DLockC /\ dr s = true /\ cm s = CCR /\ cr s = CRAcq /\ bw s = BCR.
+Proof. exact Proofs.ShutdownProto.diff_lock_order_refuted. Qed.
+Print Assumptions C12_diff_lock_order_refuted.
+
+(* ... and against a Get, through Buffer.Close as pending writer *)
+Theorem C12_diff_lock_order_pending_writer_refuted :
+  exists sched, let s := run Proofs.ShutdownProto.var_diff_inverted (init false false false 1 1 0 0) sched in
+    is_terminal Proofs.ShutdownProto.var_diff_inverted s = true /\ lock_cycle s = true /\
+    df s = DLockC /\ dr s = true /\ cm s = CG /\ gt s = GRLock /\ bw s = BBC /\ bc s = BCAcq.
+Proof. exact Proofs.ShutdownProto.diff_lock_order_pending_writer_refuted. Qed.
+Print Assumptions C12_diff_lock_order_pending_writer_refuted.
+
+(* delete without Broadcast: the consumer closes, Buffer.Close stays parked for ever *)
+Theorem C12_delete_must_broadcast_refuted :
+  exists sched, let s := run Proofs.ShutdownProto.var_delete_no_bcast (init false false false 0 0 0 0) sched in
+    is_terminal Proofs.ShutdownProto.var_delete_no_bcast s = true /\ consumer_closed s = true /\ reg s = false /\
+    bc s = BCParked /\ qBC s = true /\ bclose_returned s = false /\ bdone s = false.
+Proof. exact Proofs.ShutdownProto.delete_must_broadcast_refuted. Qed.
+Print Assumptions C12_delete_must_broadcast_refuted.
+
+(* WaitCond's watcher broadcasting without the lock: a Get misses the cancellation, keeps c.mutex, and then Buffer.Close
+   hangs for ever behind the consumer's Close *)
+Theorem C12_watcher_needs_lock_close_hangs_refuted :
+  exists sched, let s := run Proofs.ShutdownProto.var_watcher_no_lock (init false false true 1 0 0 0) sched in
+    is_terminal Proofs.ShutdownProto.var_watcher_no_lock s = true /\ bclose_called s = true /\
+    bclose_returned s = false /\ bcan s = true /\ get_parked s = true /\ cl s = ClLockC /\ cm s = CG.
+Proof. exact Proofs.ShutdownProto.watcher_needs_lock_close_hangs_refuted. Qed.
+Print Assumptions C12_watcher_needs_lock_close_hangs_refuted.
+End ShutdownProtocol.
+
